@@ -192,3 +192,123 @@ def run(check, ctx):
                                           "(_copy_bytes / bytes / slice / concatenation) or guarded by is_writeable_buffer")
     if nst < 12:
         raise AnalysisError("P4 retain: only %d attribute stores from parameters found" % nst)
+
+
+def k12_tree_rows(check, repo, rule="SEG"):
+    """KangarooTwelve's Python tree bookkeeping: for every partition of the input, the byte stream handed to the final
+    TurboSHAKE128 and its domain byte are those of the specification (S = M || C || length_encode(|C|) cut into
+    8192-byte chunks; FinalNode = S_0 || 03 00^7 || CV_1 .. CV_{n-1} || length_encode(n-1) || FF FF, domain 06; a single
+    chunk is hashed directly with domain 07).  The inner hashes are replaced by recorders; a chaining value is an
+    injective image of the chunk it covers (SHA-256 computed by the checker)."""
+    import hashlib
+    from ..absint import Interp
+    from ..absstate import State
+    from ..absval import AObj
+    K = "Crypto.Hash.KangarooTwelve"
+    mod = repo.module(K)
+    cls = repo.cls(mod, "K12_XOF")
+
+    def length_encode(x):
+        b = x.to_bytes((x.bit_length() + 7) // 8, "big") if x else b""
+        return b + bytes([len(b)])
+
+    def cv(chunk):
+        return hashlib.sha256(b"\x0b" + chunk).digest()
+
+    def ref(msg, custom):
+        S = msg + custom + length_encode(len(custom))
+        if len(S) <= 8192:
+            return S, 0x07
+        chunks = [S[i:i + 8192] for i in range(0, len(S), 8192)]
+        return chunks[0] + b"\x03" + b"\x00" * 7 + b"".join(cv(c) for c in chunks[1:]) + length_encode(len(chunks) - 1) + b"\xff\xff", 0x06
+
+    def pattern(n, seed):
+        return bytes((i * 131 + seed * 17 + (i >> 8)) & 0xFF for i in range(n))
+    cases = [
+        (100, 0, [[100], [1, 99], [0, 100]]),
+        (8192, 0, [[8192], [8191, 1]]),
+        (8191, 0, [[8191]]),
+        (8193, 0, [[8193], [8192, 1], [1, 8192], [4000, 4193]]),
+        (16384, 0, [[16384], [8192, 8192], [1, 16383]]),
+        (40000, 0, [[40000], [9000, 31000], [100, 8092, 8192, 23616], [8192 * 2 + 5, 40000 - 8192 * 2 - 5], [20000, 1, 19999]]),
+        (40000, 10, [[40000], [9000, 31000]]),
+        (8180, 10, [[8180], [8000, 180]]),
+        (8181, 10, [[8181]]),
+        (8182, 10, [[8182], [1, 8181]]),
+        (0, 9000, [[]]),
+        (5, 9000, [[5]]),
+        (9000, 9000, [[9000], [4500, 4500]]),
+        (8192 + 8192 - 3, 0, [[16381], [8000, 8381]]),
+    ]
+    wrong = []
+    n = 0
+    for (mlen, clen, parts) in cases:
+        msg = pattern(mlen, 1)
+        custom = pattern(clen, 2)
+        want_stream, want_dom = ref(msg, custom)
+        for part in parts:
+            def m_new(i, a, kw, st, node):
+                return i.new_obj(st, label="turboshake", attrs={"buf": b"", "_domain": kw.get("domain")})
+
+            def mm_update(i, base, a, kw, st, node):
+                if isinstance(base, AObj) and base.label == "turboshake":
+                    d = a[0]
+                    if not isinstance(d, (bytes, bytearray, memoryview)):
+                        st.heap[base.ident]["buf"] = None
+                    elif st.heap[base.ident].get("buf") is not None:
+                        st.heap[base.ident]["buf"] = st.heap[base.ident]["buf"] + bytes(d)
+                    return base
+                return None
+
+            def mm_read(i, base, a, kw, st, node):
+                h = st.heap[base.ident]
+                if h.get("buf") is None:
+                    return None
+                if h.get("_domain") == 0x0B:
+                    return cv(h["buf"])[:a[0]]
+                return b"OUT:" + bytes([h.get("_domain") or 0]) + hashlib.sha256(h["buf"]).digest()
+
+            def mm_reset(i, base, a, kw, st, node):
+                st.heap[base.ident]["buf"] = b""
+                return None
+            it = Interp(repo, max_depth=6, budget=4000000, extra_models={"Crypto.Hash.TurboSHAKE128.new": m_new},
+                        method_models={"update": mm_update, "read": mm_read, "_reset": mm_reset})
+            st = State()
+            me = it.new_obj(st, mod, cls, havoc=False)
+            res = it.run(mod, repo.func(mod, "K12_XOF.__init__"), {"data": None, "custom": custom}, self_obj=me, state=st)
+            ok = bool(res.returns())
+            cur = res.returns()[0].state if ok else None
+            pos = 0
+            for ln in part:
+                if not ok:
+                    break
+                cur.frames = [{}]
+                res = it.run(mod, repo.func(mod, "K12_XOF.update"), {"data": msg[pos:pos + ln]}, self_obj=me, state=cur)
+                pos += ln
+                ok = len(res.returns()) >= 1 and not res.raises()
+                cur = res.returns()[0].state if res.returns() else None
+            n += 1
+            if ok:
+                cur.frames = [{}]
+                res = it.run(mod, repo.func(mod, "K12_XOF.read"), {"length": 32}, self_obj=me, state=cur)
+                ok = len(res.returns()) == 1 and not res.raises()
+            if not ok:
+                wrong.append("%d-byte message, %d-byte customization, pieces %s: not decided (%s)" % (mlen, clen, part, res.raise_classes()))
+                continue
+            est = res.returns()[0].state
+            h1 = est.heap[me.ident].get("_hash1")
+            hh = est.heap.get(h1.ident, {}) if isinstance(h1, AObj) else {}
+            got_stream, got_dom = hh.get("buf"), hh.get("_domain")
+            if got_stream != want_stream or got_dom != want_dom:
+                if got_dom != want_dom:
+                    why = "final domain byte %r, specification %#x (%s)" % (got_dom, want_dom, "one chunk" if want_dom == 7 else "tree")
+                elif got_stream is None:
+                    why = "final node not determined"
+                else:
+                    k = next((j for j in range(min(len(got_stream), len(want_stream))) if got_stream[j] != want_stream[j]), min(len(got_stream), len(want_stream)))
+                    why = "final node differs from the specification at byte %d (lengths %d / %d)" % (k, len(got_stream), len(want_stream))
+                wrong.append("%d-byte message, %d-byte customization, pieces %s: %s" % (mlen, clen, part, why))
+    fn = repo.func(mod, "K12_XOF.update")
+    check.ob(rule, rule + "|k12.tree", not wrong, mod.path, fn.lineno,
+             extracted="; ".join(wrong[:3]) if wrong else "%d (length, customization, partition) rows: chunks are closed at exactly 8192 bytes whatever the partition; final node and domain byte as specified" % n,
+             expected="KangarooTwelve (RFC 9861 3): the result depends on M and C only, not on how M is cut into update() calls; S longer than one chunk is tree-hashed")
